@@ -1,3 +1,4 @@
+import Enc.Lemmas.ProtoUnlimited
 import Enc.Model.Proto
 import Enc.Lemmas.Base
 import Enc.Lemmas.Proto
@@ -171,16 +172,16 @@ theorem supported_all (fs : CFields) (h : CFields.Supported fs = true) :
 
 /-! ## (A) totality -/
 theorem decode_total_aux (fuel : Nat) :
-    (∀ c b cur fl e, Codec.Supported c = true → decode fuel c b cur fl ≠ .panic e) ∧
+    (∀ c b cur fl e, Codec.Supported c = true → decodeU fuel c b cur fl ≠ .panic e) ∧
     (∀ fs b lenB vs fl off e, CFields.Supported fs = true →
-      decodeStruct fuel fs b lenB vs fl off ≠ .panic e) := by
+      decodeStructU fuel fs b lenB vs fl off ≠ .panic e) := by
   induction fuel with
-  | zero => simp [decode, decodeStruct]
+  | zero => simp [decodeU, decodeStructU]
   | succ fuel ih =>
     obtain ⟨ihd, ihs⟩ := ih
     constructor
     · intro c b cur fl e hc
-      cases c <;> simp only [decode]
+      cases c <;> simp only [decodeU]
       all_goals first
         | (refine bind_ne_panic _ _ _ (decodeVarint_ne_panic b) ?_; intro ⟨u, n⟩ e; simp; done)
         | (refine bind_ne_panic _ _ _ (decodeVarint_ne_panic b) ?_; intro ⟨u, n⟩ e; split <;> simp; done)
@@ -223,7 +224,7 @@ theorem decode_total_aux (fuel : Nat) :
             exact absurd h (ihd entry b _ _ e' hc.2)
       case unsupported => simp [Codec.Supported] at hc
     · intro fs b lenB vs fl off e hfs
-      simp only [decodeStruct]
+      simp only [decodeStructU]
       split
       · simp
       · split
@@ -256,12 +257,12 @@ theorem decode_total_aux (fuel : Nat) :
 
 /-- **(A)** a codec tree without `unsupported` never panics, whatever the fuel, bytes, target value and flags -/
 theorem decode_ne_panic (fuel : Nat) (c : Codec) (b : Bytes) (cur : Val) (fl : Flags) (e : String)
-    (hc : Codec.Supported c = true) : decode fuel c b cur fl ≠ .panic e :=
+    (hc : Codec.Supported c = true) : decodeU fuel c b cur fl ≠ .panic e :=
   (decode_total_aux fuel).1 c b cur fl e hc
 
 theorem decodeStruct_ne_panic (fuel : Nat) (fs : CFields) (b : Bytes) (lenB : Nat) (vs : Vals) (fl : Flags)
     (off : Nat) (e : String) (hfs : CFields.Supported fs = true) :
-    decodeStruct fuel fs b lenB vs fl off ≠ .panic e :=
+    decodeStructU fuel fs b lenB vs fl off ≠ .panic e :=
   (decode_total_aux fuel).2 fs b lenB vs fl off e hfs
 
 /-! ## (B) consumption bound -/
@@ -292,7 +293,7 @@ theorem skipUnknown_bound (w : Nat) (b : Bytes) (lenB skip : Nat) (h : skipUnkno
   · simp at h2
 
 /-- the `switch wireType` that carves `data` out of the buffer in `structDecodeFuncOf` (same term as the `let carve`
-inside `decodeStruct`): returns `(data, bytes skipped before data)` -/
+inside `decodeStructU`): returns `(data, bytes skipped before data)` -/
 def carve (w : Nat) (b1 : Bytes) (lenB off1 : Nat) (emb : Bool) : Res (Bytes × Nat) :=
   if w == 0 then (decodeVarint b1).bind fun (_, k) => .ok (b1.take k, 0)
   else if w == 2 then
@@ -306,7 +307,7 @@ def carve (w : Nat) (b1 : Bytes) (lenB off1 : Nat) (emb : Bool) : Res (Bytes × 
 /-- one unfolding of the struct loop, with the carve step named -/
 theorem decodeStruct_succ (fuel : Nat) (fs : CFields) (b : Bytes) (lenB : Nat) (vs : Vals) (fl : Flags)
     (offset : Nat) :
-    decodeStruct (fuel + 1) fs b lenB vs fl offset =
+    decodeStructU (fuel + 1) fs b lenB vs fl offset =
       if b.isEmpty then .ok (vs, offset)
       else
         match decodeVarint b with
@@ -316,15 +317,15 @@ theorem decodeStruct_succ (fuel : Nat) (fs : CFields) (b : Bytes) (lenB : Nat) (
           match lookupField fs (tag >>> 3).toNat with
           | none =>
             (skipUnknown (tag &&& 7#64).toNat (b.drop n) lenB).bind fun skip =>
-              decodeStruct fuel fs ((b.drop n).drop skip) lenB vs fl (offset + n + skip)
+              decodeStructU fuel fs ((b.drop n).drop skip) lenB vs fl (offset + n + skip)
           | some (i, emb, zz, c) =>
             if (tag &&& 7#64).toNat != c.wire.num then .err "wireType"
             else
               (carve (tag &&& 7#64).toNat (b.drop n) lenB (offset + n) emb).bind fun (data, pre) =>
-                (decode fuel c data (Vals.get vs i) { fl with zigzag := fl.zigzag || zz }).bind fun (v, m) =>
-                  decodeStruct fuel fs ((b.drop n).drop (pre + m)) lenB (Vals.set vs i v) fl
+                (decodeU fuel c data (Vals.get vs i) { fl with zigzag := fl.zigzag || zz }).bind fun (v, m) =>
+                  decodeStructU fuel fs ((b.drop n).drop (pre + m)) lenB (Vals.set vs i v) fl
                     (offset + n + pre + m) := by
-  rw [decodeStruct]; rfl
+  rw [decodeStructU]; rfl
 
 theorem carve_bound (w : Nat) (b1 : Bytes) (lenB off1 : Nat) (emb : Bool) (data : Bytes) (pre : Nat)
     (h : carve w b1 lenB off1 emb = .ok (data, pre)) : pre + data.length ≤ b1.length := by
@@ -362,16 +363,16 @@ theorem carve_bound (w : Nat) (b1 : Bytes) (lenB off1 : Nat) (emb : Bool) (data 
         · simp at h
 
 theorem decode_bound_aux (fuel : Nat) :
-    (∀ c b cur fl v n, decode fuel c b cur fl = .ok (v, n) → n ≤ b.length) ∧
-    (∀ fs b lenB vs fl off vs' n, decodeStruct fuel fs b lenB vs fl off = .ok (vs', n) →
+    (∀ c b cur fl v n, decodeU fuel c b cur fl = .ok (v, n) → n ≤ b.length) ∧
+    (∀ fs b lenB vs fl off vs' n, decodeStructU fuel fs b lenB vs fl off = .ok (vs', n) →
       n = off + b.length) := by
   induction fuel with
-  | zero => simp [decode, decodeStruct]
+  | zero => simp [decodeU, decodeStructU]
   | succ fuel ih =>
     obtain ⟨ihd, ihs⟩ := ih
     constructor
     · intro c b cur fl v n h
-      cases c <;> simp only [decode] at h
+      cases c <;> simp only [decodeU] at h
       all_goals first
         | (obtain ⟨⟨u, k⟩, h1, h2⟩ := bind_ok _ _ _ h
            have := decodeVarint_consumes b u k h1
@@ -476,24 +477,24 @@ theorem decode_bound_aux (fuel : Nat) :
               simp only [List.length_drop] at this hc
               omega
 
-/-- **(B)** a successful decode never claims more bytes than it was given -/
+/-- **(B)** a successful decodeU never claims more bytes than it was given -/
 theorem decode_bound (fuel : Nat) (c : Codec) (b : Bytes) (cur : Val) (fl : Flags) (v : Val) (n : Nat)
-    (h : decode fuel c b cur fl = .ok (v, n)) : n ≤ b.length :=
+    (h : decodeU fuel c b cur fl = .ok (v, n)) : n ≤ b.length :=
   (decode_bound_aux fuel).1 c b cur fl v n h
 
 /-- **(B)** the struct loop only ends successfully at the end of its buffer: the returned offset is exactly the
 start offset plus the number of bytes it was given -/
 theorem decodeStruct_consumes_all (fuel : Nat) (fs : CFields) (b : Bytes) (lenB : Nat) (vs : Vals) (fl : Flags)
-    (off : Nat) (vs' : Vals) (n : Nat) (h : decodeStruct fuel fs b lenB vs fl off = .ok (vs', n)) :
+    (off : Nat) (vs' : Vals) (n : Nat) (h : decodeStructU fuel fs b lenB vs fl off = .ok (vs', n)) :
     n = off + b.length :=
   (decode_bound_aux fuel).2 fs b lenB vs fl off vs' n h
 
 theorem decode_struct_consumes_all (fuel : Nat) (fs : CFields) (b : Bytes) (cur : Val) (fl : Flags) (v : Val)
-    (n : Nat) (h : decode fuel (.struct fs) b cur fl = .ok (v, n)) : n = b.length := by
+    (n : Nat) (h : decodeU fuel (.struct fs) b cur fl = .ok (v, n)) : n = b.length := by
   cases fuel with
-  | zero => simp [decode] at h
+  | zero => simp [decodeU] at h
   | succ fuel =>
-    simp only [decode] at h
+    simp only [decodeU] at h
     split at h
     · obtain ⟨⟨u, k⟩, h1, h2⟩ := bind_ok _ _ _ h
       have := decodeStruct_consumes_all _ _ _ _ _ _ _ _ _ h1
@@ -502,8 +503,8 @@ theorem decode_struct_consumes_all (fuel : Nat) (fs : CFields) (b : Bytes) (cur 
     · simp at h
 
 theorem decode_message_toplevel (fuel : Nat) (b : Bytes) (cur : Val) (fl : Flags) (h : fl.toplevel = true) :
-    decode (fuel + 1) .message b cur fl = .ok (.str b, b.length) := by
-  simp [decode, h]
+    decodeU (fuel + 1) .message b cur fl = .ok (.str b, b.length) := by
+  simp [decodeU, h]
 
 /-! ## (C) unknown fields are skipped -/
 
@@ -564,8 +565,8 @@ length – in particular this holds under the loop invariant `lenB = off + (rec 
 theorem decodeStruct_skip_unknown (fuel : Nat) (fs : CFields) (number : Nat) (rec rest : Bytes) (lenB : Nat)
     (vs : Vals) (fl : Flags) (off : Nat) (hlk : lookupField fs number = none) (hrec : IsRecord number rec)
     (hlen : rec.length ≤ lenB) :
-    decodeStruct (fuel + 1) fs (rec ++ rest) lenB vs fl off
-      = decodeStruct fuel fs rest lenB vs fl (off + rec.length) := by
+    decodeStructU (fuel + 1) fs (rec ++ rest) lenB vs fl off
+      = decodeStructU fuel fs rest lenB vs fl (off + rec.length) := by
   obtain ⟨t, p, tag, ht, hnum, hp⟩ := hrec
   have hne : (t ++ p ++ rest).isEmpty = false := by
     have := ht.pos
@@ -616,13 +617,13 @@ def shift (d : Nat) : Res (Vals × Nat) → Res (Vals × Nat)
   | .err e => .err e
   | .panic e => .panic e
 
-/-- translating the window: the same bytes seen `d` bytes further into a buffer that is `d` bytes longer decode to the
+/-- translating the window: the same bytes seen `d` bytes further into a buffer that is `d` bytes longer decodeU to the
 same values and errors; the returned offset is `d` larger. Needs the loop invariant `off + len(b) ≤ lenB`. -/
 theorem decodeStruct_shift (fuel : Nat) : ∀ (fs : CFields) (b : Bytes) (lenB : Nat) (vs : Vals) (fl : Flags)
     (off d : Nat), off + b.length ≤ lenB →
-    decodeStruct fuel fs b (lenB + d) vs fl (off + d) = shift d (decodeStruct fuel fs b lenB vs fl off) := by
+    decodeStructU fuel fs b (lenB + d) vs fl (off + d) = shift d (decodeStructU fuel fs b lenB vs fl off) := by
   induction fuel with
-  | zero => intros; simp [decodeStruct, shift]
+  | zero => intros; simp [decodeStructU, shift]
   | succ fuel ih =>
     intro fs b lenB vs fl off d hinv
     rw [decodeStruct_succ, decodeStruct_succ]
@@ -663,7 +664,7 @@ theorem decodeStruct_shift (fuel : Nat) : ∀ (fs : CFields) (b : Bytes) (lenB :
               obtain ⟨data, pre⟩ := a
               have hcb := carve_bound _ _ _ _ _ _ _ hc
               simp only [Res.bind]
-              cases hdec : decode fuel c data (Vals.get vs i) { fl with zigzag := fl.zigzag || zz } with
+              cases hdec : decodeU fuel c data (Vals.get vs i) { fl with zigzag := fl.zigzag || zz } with
               | err e => simp [shift]
               | panic e => simp [shift]
               | ok a =>
@@ -684,16 +685,16 @@ def shiftV (d : Nat) : Res (Val × Nat) → Res (Val × Nat)
 value nor the error; only the consumed count grows by the record length (and one more unit of fuel is used). -/
 theorem decode_struct_skip_front (fuel : Nat) (fs : CFields) (number : Nat) (rec body : Bytes) (cur : Val)
     (fl : Flags) (hlk : lookupField fs number = none) (hrec : IsRecord number rec) :
-    decode (fuel + 2) (.struct fs) (rec ++ body) cur fl
-      = shiftV rec.length (decode (fuel + 1) (.struct fs) body cur fl) := by
-  simp only [decode]
+    decodeU (fuel + 2) (.struct fs) (rec ++ body) cur fl
+      = shiftV rec.length (decodeU (fuel + 1) (.struct fs) body cur fl) := by
+  simp only [decodeU]
   cases cur with
   | struct vs =>
     simp only []
     rw [decodeStruct_skip_unknown fuel fs number rec body _ vs _ 0 hlk hrec (by simp)]
     have e : (rec ++ body).length = body.length + rec.length := by simp; omega
     rw [e, decodeStruct_shift fuel fs body body.length vs _ 0 rec.length (by simp)]
-    cases decodeStruct fuel fs body body.length vs { fl with toplevel := false } 0 with
+    cases decodeStructU fuel fs body body.length vs { fl with toplevel := false } 0 with
     | ok a => obtain ⟨vs', n⟩ := a; rfl
     | err e => rfl
     | panic e => rfl
@@ -744,9 +745,9 @@ theorem carve_ne_fuel (w : Nat) (b1 : Bytes) (lenB off1 : Nat) (emb : Bool) :
       all_goals simp
 
 theorem decode_fuel_aux (fuel : Nat) :
-    (∀ c b cur fl, b.length + Codec.height c ≤ fuel → decode fuel c b cur fl ≠ .err "fuel") ∧
+    (∀ c b cur fl, b.length + Codec.height c ≤ fuel → decodeU fuel c b cur fl ≠ .err "fuel") ∧
     (∀ fs b lenB vs fl off, b.length + CFields.height fs + 1 ≤ fuel →
-      decodeStruct fuel fs b lenB vs fl off ≠ .err "fuel") := by
+      decodeStructU fuel fs b lenB vs fl off ≠ .err "fuel") := by
   induction fuel with
   | zero =>
     constructor
@@ -757,7 +758,7 @@ theorem decode_fuel_aux (fuel : Nat) :
     obtain ⟨ihd, ihs⟩ := ih
     constructor
     · intro c b cur fl hf
-      cases c <;> simp only [decode]
+      cases c <;> simp only [decodeU]
       all_goals first
         | (refine bind_ne_fuel _ _ (decodeVarint_ne_fuel b) ?_; intro ⟨u, n⟩ _; simp; done)
         | (refine bind_ne_fuel _ _ (decodeVarint_ne_fuel b) ?_; intro ⟨u, n⟩ _; split <;> simp; done)
@@ -831,17 +832,17 @@ theorem decode_fuel_aux (fuel : Nat) :
 
 /-- **(D)** fuel `len(b) + height(c)` is never exhausted (no `Supported` hypothesis needed) -/
 theorem decode_ne_fuel (fuel : Nat) (c : Codec) (b : Bytes) (cur : Val) (fl : Flags)
-    (h : b.length + Codec.height c ≤ fuel) : decode fuel c b cur fl ≠ .err "fuel" :=
+    (h : b.length + Codec.height c ≤ fuel) : decodeU fuel c b cur fl ≠ .err "fuel" :=
   (decode_fuel_aux fuel).1 c b cur fl h
 
 theorem decodeStruct_ne_fuel (fuel : Nat) (fs : CFields) (b : Bytes) (lenB : Nat) (vs : Vals) (fl : Flags)
     (off : Nat) (h : b.length + CFields.height fs + 1 ≤ fuel) :
-    decodeStruct fuel fs b lenB vs fl off ≠ .err "fuel" :=
+    decodeStructU fuel fs b lenB vs fl off ≠ .err "fuel" :=
   (decode_fuel_aux fuel).2 fs b lenB vs fl off h
 
-/-- the fuel `2 * len(b) + 8 + height(c)` of `unmarshal` is never exhausted -/
+/-- the fuel `2 * len(b) + 8 + height(c)` of `unmarshalU` is never exhausted -/
 theorem unmarshal_fuel_ok (c : Codec) (b : Bytes) (cur : Val) (fl : Flags) :
-    decode (2 * b.length + 8 + Codec.height c) c b cur fl ≠ .err "fuel" :=
+    decodeU (2 * b.length + 8 + Codec.height c) c b cur fl ≠ .err "fuel" :=
   decode_ne_fuel _ c b cur fl (by omega)
 
 /-! ### more fuel never changes a result that did not run out of fuel -/
@@ -855,12 +856,12 @@ theorem bind_mono {α β : Type} (r r' : Res α) (f f' : α → Res β)
   | panic e => rw [hr (by simp)]; rfl
 
 theorem decode_mono_aux (fuel : Nat) :
-    (∀ fuel' c b cur fl, fuel ≤ fuel' → decode fuel c b cur fl ≠ .err "fuel" →
-      decode fuel' c b cur fl = decode fuel c b cur fl) ∧
-    (∀ fuel' fs b lenB vs fl off, fuel ≤ fuel' → decodeStruct fuel fs b lenB vs fl off ≠ .err "fuel" →
-      decodeStruct fuel' fs b lenB vs fl off = decodeStruct fuel fs b lenB vs fl off) := by
+    (∀ fuel' c b cur fl, fuel ≤ fuel' → decodeU fuel c b cur fl ≠ .err "fuel" →
+      decodeU fuel' c b cur fl = decodeU fuel c b cur fl) ∧
+    (∀ fuel' fs b lenB vs fl off, fuel ≤ fuel' → decodeStructU fuel fs b lenB vs fl off ≠ .err "fuel" →
+      decodeStructU fuel' fs b lenB vs fl off = decodeStructU fuel fs b lenB vs fl off) := by
   induction fuel with
-  | zero => simp [decode, decodeStruct]
+  | zero => simp [decodeU, decodeStructU]
   | succ fuel ih =>
     obtain ⟨ihd, ihs⟩ := ih
     constructor
@@ -868,7 +869,7 @@ theorem decode_mono_aux (fuel : Nat) :
       cases fuel' with
       | zero => omega
       | succ k =>
-        cases c <;> simp only [decode] at h ⊢
+        cases c <;> simp only [decodeU] at h ⊢
         case ptr c' =>
           exact bind_mono _ _ _ _ (fun hne => ihd k c' b _ fl (by omega) hne) (fun a _ _ => rfl) h
         case struct fs =>
@@ -877,14 +878,14 @@ theorem decode_mono_aux (fuel : Nat) :
             exact bind_mono _ _ _ _ (fun hne => ihs k fs b _ vs _ 0 (by omega) hne) (fun a _ _ => rfl) h
           | _ => rfl
         case slice elem number wire emb =>
-          have hne : decode fuel elem b (zeroOfCodec elem) {} ≠ .err "fuel" := by
+          have hne : decodeU fuel elem b (zeroOfCodec elem) {} ≠ .err "fuel" := by
             intro hc; rw [hc] at h; exact h rfl
           rw [ihd k elem _ _ _ (by omega) hne]
         case map number kc vc kEmb vEmb entry =>
           by_cases hb : b.isEmpty = true
           · simp only [hb, if_true]
           · simp only [hb, Bool.false_eq_true, ↓reduceIte] at h ⊢
-            have hne : decode fuel entry b (zeroOfCodec entry) {} ≠ .err "fuel" := by
+            have hne : decodeU fuel entry b (zeroOfCodec entry) {} ≠ .err "fuel" := by
               intro hc; rw [hc] at h; exact h rfl
             rw [ihd k entry _ _ _ (by omega) hne]
     · intro fuel' fs b lenB vs fl off hle h
@@ -923,33 +924,33 @@ theorem decode_mono_aux (fuel : Nat) :
 
 /-- a result that is not the fuel error is stable under adding fuel -/
 theorem decode_mono (fuel fuel' : Nat) (c : Codec) (b : Bytes) (cur : Val) (fl : Flags) (hle : fuel ≤ fuel')
-    (h : decode fuel c b cur fl ≠ .err "fuel") : decode fuel' c b cur fl = decode fuel c b cur fl :=
+    (h : decodeU fuel c b cur fl ≠ .err "fuel") : decodeU fuel' c b cur fl = decodeU fuel c b cur fl :=
   (decode_mono_aux fuel).1 fuel' c b cur fl hle h
 
 theorem decodeStruct_mono (fuel fuel' : Nat) (fs : CFields) (b : Bytes) (lenB : Nat) (vs : Vals) (fl : Flags)
-    (off : Nat) (hle : fuel ≤ fuel') (h : decodeStruct fuel fs b lenB vs fl off ≠ .err "fuel") :
-    decodeStruct fuel' fs b lenB vs fl off = decodeStruct fuel fs b lenB vs fl off :=
+    (off : Nat) (hle : fuel ≤ fuel') (h : decodeStructU fuel fs b lenB vs fl off ≠ .err "fuel") :
+    decodeStructU fuel' fs b lenB vs fl off = decodeStructU fuel fs b lenB vs fl off :=
   (decode_mono_aux fuel).2 fuel' fs b lenB vs fl off hle h
 
 /-- any two sufficient amounts of fuel give the same result -/
 theorem decode_fuel_irrelevant (f1 f2 : Nat) (c : Codec) (b : Bytes) (cur : Val) (fl : Flags)
     (h1 : b.length + Codec.height c ≤ f1) (h2 : b.length + Codec.height c ≤ f2) :
-    decode f1 c b cur fl = decode f2 c b cur fl := by
+    decodeU f1 c b cur fl = decodeU f2 c b cur fl := by
   rw [decode_mono _ f1 c b cur fl h1 (decode_ne_fuel _ c b cur fl (Nat.le_refl _)),
     decode_mono _ f2 c b cur fl h2 (decode_ne_fuel _ c b cur fl (Nat.le_refl _))]
 
-/-! ### `unmarshal` level -/
+/-! ### `unmarshalU` level -/
 
 theorem decode_struct_empty (fuel : Nat) (fs : CFields) (vs : Vals) (fl : Flags) :
-    decode (fuel + 2) (.struct fs) [] (.struct vs) fl = .ok (.struct vs, 0) := by
-  simp [decode, decodeStruct, Res.bind]
+    decodeU (fuel + 2) (.struct fs) [] (.struct vs) fl = .ok (.struct vs, 0) := by
+  simp [decodeU, decodeStructU, Res.bind]
 
 /-- **(C), `Unmarshal` level**: for a struct type, prepending a complete record with an undeclared field number to
-the input does not change the result of `unmarshal` (value or error). -/
+the input does not change the result of `unmarshalU` (value or error). -/
 theorem unmarshal_skip_front_gen (t : Ty) (fs : CFields) (vs : Vals) (number : Nat) (rec body : Bytes)
     (hc : codecOf t = .struct fs) (hz : zeroOf t = .struct vs)
     (hlk : lookupField fs number = none) (hrec : IsRecord number rec) :
-    unmarshal t (rec ++ body) = unmarshal t body := by
+    unmarshalU t (rec ++ body) = unmarshalU t body := by
   obtain ⟨tb, p, tag, ht, _, _⟩ := id hrec
   have hpos : 0 < (tb ++ p).length := by have := ht.pos; simp; omega
   generalize tb ++ p = rec at *
@@ -957,7 +958,7 @@ theorem unmarshal_skip_front_gen (t : Ty) (fs : CFields) (vs : Vals) (number : N
     cases rec with
     | nil => simp at hpos
     | cons x xs => rfl
-  unfold unmarshal
+  unfold unmarshalU
   rw [hc, hz]
   simp only [hne, Bool.false_eq_true, ↓reduceIte]
   have hF : 2 * (rec ++ body).length + 8 + Codec.height (.struct fs)
@@ -973,7 +974,7 @@ theorem unmarshal_skip_front_gen (t : Ty) (fs : CFields) (vs : Vals) (number : N
     rw [decode_fuel_irrelevant (Codec.height (.struct fs) + 2 * rec.length + 2 * body.length + 6 + 1)
       (2 * body.length + 8 + Codec.height (.struct fs)) (.struct fs) body
       (.struct vs) _ (by omega) (by omega)]
-    cases decode (2 * body.length + 8 + Codec.height (.struct fs)) (.struct fs) body (.struct vs)
+    cases decodeU (2 * body.length + 8 + Codec.height (.struct fs)) (.struct fs) body (.struct vs)
         { toplevel := true } with
     | ok a =>
       obtain ⟨v, n⟩ := a
@@ -988,7 +989,7 @@ theorem unmarshal_skip_front_gen (t : Ty) (fs : CFields) (vs : Vals) (number : N
 
 theorem unmarshal_skip_front (Fs : Fields) (number : Nat) (rec body : Bytes)
     (hlk : lookupField (fieldsOf 1 Fs) number = none) (hrec : IsRecord number rec) :
-    unmarshal (.struct Fs) (rec ++ body) = unmarshal (.struct Fs) body :=
+    unmarshalU (.struct Fs) (rec ++ body) = unmarshalU (.struct Fs) body :=
   unmarshal_skip_front_gen (.struct Fs) (fieldsOf 1 Fs) (zeroFields Fs) number rec body
     (by simp [codecOf]) (by simp [zeroOf]) hlk hrec
 
@@ -1092,12 +1093,12 @@ successfully to `vs1` (so it is a sequence of complete field records), then deco
 theorem decodeStruct_append (f1 : Nat) : ∀ (fs : CFields) (pre rest : Bytes) (L : Nat) (vs : Vals) (fl : Flags)
     (off : Nat) (vs1 : Vals) (n1 f2 : Nat) (r : Res (Vals × Nat)),
     L = off + pre.length →
-    decodeStruct f1 fs pre L vs fl off = .ok (vs1, n1) →
-    decodeStruct f2 fs rest (L + rest.length) vs1 fl L = r →
+    decodeStructU f1 fs pre L vs fl off = .ok (vs1, n1) →
+    decodeStructU f2 fs rest (L + rest.length) vs1 fl L = r →
     r ≠ .err "fuel" →
-    decodeStruct (f1 + f2) fs (pre ++ rest) (L + rest.length) vs fl off = r := by
+    decodeStructU (f1 + f2) fs (pre ++ rest) (L + rest.length) vs fl off = r := by
   induction f1 with
-  | zero => intros; simp_all [decodeStruct]
+  | zero => intros; simp_all [decodeStructU]
   | succ f1 ih =>
     intro fs pre rest L vs fl off vs1 n1 f2 r hL h hr hne
     rw [decodeStruct_succ] at h
@@ -1167,14 +1168,14 @@ sequence of fields, an undeclared complete record inserted between `pre` and `re
 theorem decodeStruct_skip_anywhere (f1 f2 : Nat) (fs : CFields) (number : Nat) (pre rec rest : Bytes)
     (vs vs1 : Vals) (fl : Flags) (n1 : Nat)
     (hlk : lookupField fs number = none) (hrec : IsRecord number rec)
-    (hpre : decodeStruct f1 fs pre pre.length vs fl 0 = .ok (vs1, n1))
-    (hfuel : decodeStruct f2 fs rest (pre.length + rest.length) vs1 fl pre.length ≠ .err "fuel") :
-    decodeStruct (f1 + (f2 + 1)) fs (pre ++ (rec ++ rest)) (pre.length + (rec ++ rest).length) vs fl 0
-      = shift rec.length (decodeStruct (f1 + f2) fs (pre ++ rest) (pre.length + rest.length) vs fl 0) := by
+    (hpre : decodeStructU f1 fs pre pre.length vs fl 0 = .ok (vs1, n1))
+    (hfuel : decodeStructU f2 fs rest (pre.length + rest.length) vs1 fl pre.length ≠ .err "fuel") :
+    decodeStructU (f1 + (f2 + 1)) fs (pre ++ (rec ++ rest)) (pre.length + (rec ++ rest).length) vs fl 0
+      = shift rec.length (decodeStructU (f1 + f2) fs (pre ++ rest) (pre.length + rest.length) vs fl 0) := by
   have hR := decodeStruct_append f1 fs pre rest pre.length vs fl 0 vs1 n1 f2 _ (by omega) hpre rfl hfuel
   rw [hR]
-  have h1 : decodeStruct (f2 + 1) fs (rec ++ rest) (pre.length + (rec ++ rest).length) vs1 fl pre.length
-      = shift rec.length (decodeStruct f2 fs rest (pre.length + rest.length) vs1 fl pre.length) := by
+  have h1 : decodeStructU (f2 + 1) fs (rec ++ rest) (pre.length + (rec ++ rest).length) vs1 fl pre.length
+      = shift rec.length (decodeStructU f2 fs rest (pre.length + rest.length) vs1 fl pre.length) := by
     rw [decodeStruct_skip_unknown f2 fs number rec rest _ vs1 fl _ hlk hrec
       (by simp only [List.length_append]; omega)]
     have e : pre.length + (rec ++ rest).length = (pre.length + rest.length) + rec.length := by
@@ -1185,10 +1186,10 @@ theorem decodeStruct_skip_anywhere (f1 f2 : Nat) (fs : CFields) (number : Nat) (
     (shift_ne_fuel _ _ hfuel)
 
 theorem decode_struct_succ (f : Nat) (fs : CFields) (b : Bytes) (vs : Vals) (fl : Flags) :
-    decode (f + 1) (.struct fs) b (.struct vs) fl
-      = (decodeStruct f fs b b.length vs { fl with toplevel := false } 0).bind
+    decodeU (f + 1) (.struct fs) b (.struct vs) fl
+      = (decodeStructU f fs b b.length vs { fl with toplevel := false } 0).bind
           fun (x : Vals × Nat) => .ok (.struct x.1, x.2) := by
-  simp only [decode]
+  simp only [decodeU]
 
 theorem shiftV_bind (d : Nat) (r : Res (Vals × Nat)) :
     shiftV d (r.bind fun (x : Vals × Nat) => .ok (.struct x.1, x.2))
@@ -1200,8 +1201,8 @@ theorem shiftV_bind (d : Nat) (r : Res (Vals × Nat)) :
 
 /-- with enough fuel, the result equals the result at any fuel that did not run out -/
 theorem decode_fuel_eq (fa F : Nat) (c : Codec) (b : Bytes) (cur : Val) (fl : Flags)
-    (ha : decode fa c b cur fl ≠ .err "fuel") (hF : b.length + Codec.height c ≤ F) :
-    decode F c b cur fl = decode fa c b cur fl := by
+    (ha : decodeU fa c b cur fl ≠ .err "fuel") (hF : b.length + Codec.height c ≤ F) :
+    decodeU F c b cur fl = decodeU fa c b cur fl := by
   rw [← decode_mono fa (max fa F) c b cur fl (Nat.le_max_left _ _) ha,
     decode_mono F (max fa F) c b cur fl (Nat.le_max_right _ _) (decode_ne_fuel F c b cur fl hF)]
 
@@ -1211,12 +1212,12 @@ theorem decode_fuel_eq (fa F : Nat) (c : Codec) (b : Bytes) (cur : Val) (fl : Fl
 theorem decode_struct_skip_anywhere (F F0 : Nat) (fs : CFields) (number : Nat) (pre rec rest : Bytes)
     (cur : Val) (fl : Flags) (v1 : Val) (n1 : Nat)
     (hlk : lookupField fs number = none) (hrec : IsRecord number rec)
-    (hpre : decode F0 (.struct fs) pre cur fl = .ok (v1, n1))
+    (hpre : decodeU F0 (.struct fs) pre cur fl = .ok (v1, n1))
     (hF : (pre ++ (rec ++ rest)).length + Codec.height (.struct fs) ≤ F) :
-    decode F (.struct fs) (pre ++ (rec ++ rest)) cur fl
-      = shiftV rec.length (decode F (.struct fs) (pre ++ rest) cur fl) := by
+    decodeU F (.struct fs) (pre ++ (rec ++ rest)) cur fl
+      = shiftV rec.length (decodeU F (.struct fs) (pre ++ rest) cur fl) := by
   cases F0 with
-  | zero => simp [decode] at hpre
+  | zero => simp [decodeU] at hpre
   | succ f1 =>
     cases cur with
     | struct vs =>
@@ -1228,45 +1229,45 @@ theorem decode_struct_skip_anywhere (F F0 : Nat) (fs : CFields) (number : Nat) (
       have hR := decodeStruct_append f1 fs pre rest pre.length vs fl' 0 vs1 k _ _ (by omega) hp rfl hfuel
       have key := decodeStruct_skip_anywhere f1 _ fs number pre rec rest vs vs1 fl' k hlk hrec hp hfuel
       -- the two sides at convenient fuel
-      have hA : decode (f1 + (rest.length + CFields.height fs + 1) + 1) (.struct fs) (pre ++ rest) (.struct vs) fl
+      have hA : decodeU (f1 + (rest.length + CFields.height fs + 1) + 1) (.struct fs) (pre ++ rest) (.struct vs) fl
           ≠ .err "fuel" := by
         rw [decode_struct_succ, List.length_append, hR]
         exact bind_ne_fuel _ _ hfuel (by intro a _; simp)
-      have hB : decode (f1 + (rest.length + CFields.height fs + 1 + 1) + 1) (.struct fs) (pre ++ (rec ++ rest))
+      have hB : decodeU (f1 + (rest.length + CFields.height fs + 1 + 1) + 1) (.struct fs) (pre ++ (rec ++ rest))
             (.struct vs) fl
           = shiftV rec.length
-              (decode (f1 + (rest.length + CFields.height fs + 1) + 1) (.struct fs) (pre ++ rest) (.struct vs) fl) := by
+              (decodeU (f1 + (rest.length + CFields.height fs + 1) + 1) (.struct fs) (pre ++ rest) (.struct vs) fl) := by
         rw [decode_struct_succ, decode_struct_succ, shiftV_bind, List.length_append (as := pre) (bs := rec ++ rest),
           List.length_append (as := pre) (bs := rest), key]
-      have hBne : decode (f1 + (rest.length + CFields.height fs + 1 + 1) + 1) (.struct fs) (pre ++ (rec ++ rest))
+      have hBne : decodeU (f1 + (rest.length + CFields.height fs + 1 + 1) + 1) (.struct fs) (pre ++ (rec ++ rest))
             (.struct vs) fl ≠ .err "fuel" := by
         rw [hB]
         revert hA
-        cases decode (f1 + (rest.length + CFields.height fs + 1) + 1) (.struct fs) (pre ++ rest) (.struct vs) fl with
+        cases decodeU (f1 + (rest.length + CFields.height fs + 1) + 1) (.struct fs) (pre ++ rest) (.struct vs) fl with
         | ok a => obtain ⟨v, n⟩ := a; simp [shiftV]
         | err e => simp [shiftV]
         | panic e => simp [shiftV]
       rw [decode_fuel_eq _ F _ _ _ _ hBne hF, hB,
         decode_fuel_eq _ F _ _ _ _ hA (by simp only [List.length_append] at hF ⊢; omega)]
-    | _ => simp [decode] at hpre
+    | _ => simp [decodeU] at hpre
 
 /-- **(C), anywhere, `Unmarshal` level**: if `pre` alone unmarshals successfully (it is a sequence of complete
-fields), inserting an undeclared complete record after it does not change the result of `unmarshal`. -/
+fields), inserting an undeclared complete record after it does not change the result of `unmarshalU`. -/
 theorem unmarshal_skip_anywhere_gen (t : Ty) (fs : CFields) (vs : Vals) (number : Nat) (pre rec rest : Bytes)
     (v1 : Val) (hc : codecOf t = .struct fs) (hz : zeroOf t = .struct vs)
     (hlk : lookupField fs number = none) (hrec : IsRecord number rec)
-    (hpre : unmarshal t pre = .ok v1) :
-    unmarshal t (pre ++ (rec ++ rest)) = unmarshal t (pre ++ rest) := by
+    (hpre : unmarshalU t pre = .ok v1) :
+    unmarshalU t (pre ++ (rec ++ rest)) = unmarshalU t (pre ++ rest) := by
   -- `pre` decodes successfully at some fuel
-  have hpre' : ∃ F0 v n, decode F0 (.struct fs) pre (.struct vs) { toplevel := true } = .ok (v, n) := by
-    unfold unmarshal at hpre
+  have hpre' : ∃ F0 v n, decodeU F0 (.struct fs) pre (.struct vs) { toplevel := true } = .ok (v, n) := by
+    unfold unmarshalU at hpre
     rw [hc, hz] at hpre
     by_cases hb : pre.isEmpty = true
     · have : pre = [] := by simpa using hb
       subst this
       exact ⟨2, _, _, decode_struct_empty 0 fs vs _⟩
     · simp only [hb, Bool.false_eq_true, ↓reduceIte] at hpre
-      cases hd : decode (2 * pre.length + 8 + Codec.height (.struct fs)) (.struct fs) pre (.struct vs)
+      cases hd : decodeU (2 * pre.length + 8 + Codec.height (.struct fs)) (.struct fs) pre (.struct vs)
           { toplevel := true } with
       | ok a => exact ⟨_, a.1, a.2, hd⟩
       | err e => rw [hd] at hpre; simp at hpre
@@ -1282,7 +1283,7 @@ theorem unmarshal_skip_anywhere_gen (t : Ty) (fs : CFields) (vs : Vals) (number 
       | nil => simp at hrpos
       | cons x xs => rfl
     | cons x xs => rfl
-  unfold unmarshal
+  unfold unmarshalU
   rw [hc, hz]
   simp only [hne, Bool.false_eq_true, ↓reduceIte]
   have hlenB : (pre ++ (rec ++ rest)).length = (pre ++ rest).length + rec.length := by
@@ -1298,7 +1299,7 @@ theorem unmarshal_skip_anywhere_gen (t : Ty) (fs : CFields) (vs : Vals) (number 
     rw [decode_fuel_irrelevant (2 * (pre ++ (rec ++ rest)).length + 8 + Codec.height (.struct fs))
       (2 * (pre ++ rest).length + 8 + Codec.height (.struct fs)) (.struct fs)
       (pre ++ rest) (.struct vs) _ (by omega) (by omega)]
-    cases decode (2 * (pre ++ rest).length + 8 + Codec.height (.struct fs)) (.struct fs) (pre ++ rest) (.struct vs)
+    cases decodeU (2 * (pre ++ rest).length + 8 + Codec.height (.struct fs)) (.struct fs) (pre ++ rest) (.struct vs)
         { toplevel := true } with
     | ok a =>
       obtain ⟨v, n⟩ := a
@@ -1308,15 +1309,15 @@ theorem unmarshal_skip_anywhere_gen (t : Ty) (fs : CFields) (vs : Vals) (number 
 
 theorem unmarshal_skip_anywhere (Fs : Fields) (number : Nat) (pre rec rest : Bytes) (v1 : Val)
     (hlk : lookupField (fieldsOf 1 Fs) number = none) (hrec : IsRecord number rec)
-    (hpre : unmarshal (.struct Fs) pre = .ok v1) :
-    unmarshal (.struct Fs) (pre ++ (rec ++ rest)) = unmarshal (.struct Fs) (pre ++ rest) :=
+    (hpre : unmarshalU (.struct Fs) pre = .ok v1) :
+    unmarshalU (.struct Fs) (pre ++ (rec ++ rest)) = unmarshalU (.struct Fs) (pre ++ rest) :=
   unmarshal_skip_anywhere_gen (.struct Fs) (fieldsOf 1 Fs) (zeroFields Fs) number pre rec rest v1
     (by simp [codecOf]) (by simp [zeroOf]) hlk hrec hpre
 
 /-- `Unmarshal` never reports the model's fuel error: the fuel `2 * len(b) + 8 + height` always suffices
-(the only other errors are the ones the Go code returns; `"trailing"` is the only one produced by `unmarshal` itself) -/
-theorem unmarshal_ne_fuel (t : Ty) (b : Bytes) : unmarshal t b ≠ .err "fuel" := by
-  unfold unmarshal
+(the only other errors are the ones the Go code returns; `"trailing"` is the only one produced by `unmarshalU` itself) -/
+theorem unmarshal_ne_fuel (t : Ty) (b : Bytes) : unmarshalU t b ≠ .err "fuel" := by
+  unfold unmarshalU
   split
   · simp
   · split
@@ -1330,8 +1331,8 @@ theorem unmarshal_ne_fuel (t : Ty) (b : Bytes) : unmarshal t b ≠ .err "fuel" :
 
 /-- **(A)** at the entry point: `Unmarshal` into a type whose codec tree has no unsupported kind never panics -/
 theorem unmarshal_ne_panic (t : Ty) (b : Bytes) (e : String) (h : Codec.Supported (codecOf t) = true) :
-    unmarshal t b ≠ .panic e := by
-  unfold unmarshal
+    unmarshalU t b ≠ .panic e := by
+  unfold unmarshalU
   split
   · simp
   · split
@@ -1374,8 +1375,8 @@ theorem IsRecord.pos {number : Nat} {r : Bytes} (h : IsRecord number r) : 0 < r.
 /-- several undeclared records in a row are skipped, one loop iteration each -/
 theorem decodeStruct_skip_unknowns (fs : CFields) (recs : List Bytes) (rest : Bytes) (lenB : Nat) (vs : Vals)
     (fl : Flags) (hrecs : ∀ r ∈ recs, r.length ≤ lenB ∧ ∃ number, lookupField fs number = none ∧ IsRecord number r) :
-    ∀ (fuel off : Nat), decodeStruct (fuel + recs.length) fs (recs.flatten ++ rest) lenB vs fl off
-      = decodeStruct fuel fs rest lenB vs fl (off + recs.flatten.length) := by
+    ∀ (fuel off : Nat), decodeStructU (fuel + recs.length) fs (recs.flatten ++ rest) lenB vs fl off
+      = decodeStructU fuel fs rest lenB vs fl (off + recs.flatten.length) := by
   induction recs with
   | nil => intro fuel off; simp
   | cons r rs ih =>
@@ -1400,11 +1401,11 @@ example : Codec.height .sfixed32 = 1 ∧ Codec.height .sfixed64 = 1 := ⟨rfl, r
 example : Codec.sfixed32.wire = .fixed32 ∧ Codec.sfixed64.wire = .fixed64 := ⟨rfl, rfl⟩
 /-- totality: no panic, whatever the bytes -/
 example (fuel : Nat) (b : Bytes) (cur : Val) (fl : Flags) (e : String) :
-    decode fuel .sfixed32 b cur fl ≠ .panic e ∧ decode fuel .sfixed64 b cur fl ≠ .panic e :=
+    decodeU fuel .sfixed32 b cur fl ≠ .panic e ∧ decodeU fuel .sfixed64 b cur fl ≠ .panic e :=
   ⟨decode_ne_panic fuel _ b cur fl e rfl, decode_ne_panic fuel _ b cur fl e rfl⟩
-/-- bound: a successful decode stays inside its bytes -/
+/-- bound: a successful decodeU stays inside its bytes -/
 example (fuel : Nat) (b : Bytes) (cur : Val) (fl : Flags) (v : Val) (n : Nat)
-    (h : decode fuel .sfixed64 b cur fl = .ok (v, n)) : n ≤ b.length := decode_bound fuel _ b cur fl v n h
+    (h : decodeU fuel .sfixed64 b cur fl = .ok (v, n)) : n ≤ b.length := decode_bound fuel _ b cur fl v n h
 /-- skipping: an sfixed record under an undeclared number is a complete I32 / I64 payload, hence skipped
 (`decodeStruct_skip_unknown`, `unmarshal_skip_anywhere`) -/
 example (i : Int) : IsPayload Wire.fixed32.num (le32 (BitVec.ofInt 32 i)) ∧ IsPayload Wire.fixed64.num (le64 (BitVec.ofInt 64 i)) :=
